@@ -4,6 +4,16 @@ CLAIMED = {
   "text": "Decides structural necessary conditions of the accounting property on every path of every instance: gauge increment/decrement pairing by defer; exactly one outcome record per attempt; total==success+failed inside every collector function; success only under a status test; every return of the retry entry has an outcome; translator error paths set the error flag. It does not decide numeric equality with an external tally.",
   "note": "Trusted: go/ssa's CFG; panics are not return paths (pairing must use defer for that reason); dynamic calls are not followed by the path counter. Known genuine defects (F16a-c) are listed in known_findings.json.",
  },
+ "C02": {
+  "technique": "static analysis: path-sensitive typestate search over the retry loop's SSA CFG (fresh/committed on the client response), wrapper-method must-store check, control-dependence of own error writes",
+  "text": "Decides that no control-flow cycle of the shared retry loop can lead from one backend attempt to the next once the response has started (the writer wrapper's WriteHeader/Write set a monotone flag on every path and every cycle takes the not-started branch of a test on it), that engines relay resp.StatusCode, and that handlers write their own error body after a failed proxy call only under the nothing-written-yet test. It does not decide byte order/integrity of the relayed body.",
+  "note": "Trusted: go/ssa CFG; http.ResponseWriter contract; both engines share core.RetryHandler (found structurally as the function that invokes a core.ProxyFunc in a loop). Defect F3 (re-dispatch after a mid-body reset) was fixed in /repo commit 56ec3c3.",
+ },
+ "C04": {
+  "technique": "static analysis: abstract error values (wrapped sentinels, %w operand types, constant fragments) evaluated against the retry predicate discovered in the loop; must-pass-through on loop cycles with callee summaries",
+  "text": "Decides that a circuit-open skip returns an error the retry loop accepts as 'next candidate', that every attempt-to-attempt cycle removes the tried endpoint from the loop-carried list and (unless it is a skip) marks it offline through DiscoveryService on all paths, that the connection-failure branches of the error wrapper stay acceptable to the retry predicate, and that engines hand the loop exactly the caller's candidate list and dispatch to the endpoint Select returned. It does not decide which Go error a socket fault produces.",
+  "note": "Trusted: errors.Is/As and fmt.Errorf %w semantics; pattern table of the retry predicate read from its package-level literal. Defect F4 (circuit-open not retried) was fixed in /repo commit f9154fa.",
+ },
 }
 _PENDING = "check not built yet in this session; see DESIGN.md §5 for the planned static rules"
 NOT_APPLICABLE = {f"C{i:02d}": _PENDING for i in range(1, 21)}
